@@ -48,7 +48,7 @@ def cases(draw, tier):
     case = {"Y": spec, "hist": [draw(st.integers(0, 7)), draw(st.integers(0, 7)), draw(st.booleans()), draw(st.sampled_from([-2.5, 0.5, 3.0, -1.0]))], "kspell": draw(st.sampled_from(["int", "int", "int64", "int32", "uint8", "intp", "arr0"]))}
     if draw(st.integers(0, 2)) == 0:
         # extreme scales: core k is multiplied by 2**shift[k]; single cores stay representable, products do not
-        lim = 400 if tier == "quick" else 480
+        lim = 900          # (two neighbouring cores of 2^900 each: their product is far outside the float range)
         pat = draw(st.sampled_from(["up", "down", "alternate", "free", "one_huge", "one_tiny"]))
         d = len(spec["n"])
         if pat in ("one_huge", "one_tiny"):
